@@ -157,9 +157,9 @@ def cwrapper_contract(f, calls):
     frame = FRAME_G
     if f.name == 'masa_get_name':
         # "masa_get_name writes the solution name into the caller's buffer": the string object handed to the C++ call is copied back
-        ok.append('ghost_bufdst == name && ghost_bufsrc == STR_OF(name)')
-        frame += ', ghost_bufdst, ghost_bufsrc'
-    return ' \\\n  '.join(['__CPROVER_requires(0 <= ghost_ncalls && ghost_ncalls < 1000000)', '__CPROVER_assigns(%s)' % frame, '__CPROVER_ensures(%s)' % ' && '.join(ok)])
+        ok.append('ghost_bufdst == name && ghost_bufsrc == STR_OF(name) && ghost_bufn > STRLEN(STR_OF(name))')   # the whole string including its terminator
+        frame += ', ghost_bufdst, ghost_bufsrc, ghost_bufn'
+    return ' \\\n  '.join(['__CPROVER_requires(0 <= ghost_ncalls && ghost_ncalls < 1000000' + (' && 0 <= STRLEN(STR_OF(name)) && STRLEN(STR_OF(name)) < 100000' if f.name == 'masa_get_name' else '') + ')', '__CPROVER_assigns(%s)' % frame, '__CPROVER_ensures(%s)' % ' && '.join(ok)])
 
 
 STUB_CONTRACT = ('__CPROVER_assigns(ghost_msg) \\\n  __CPROVER_ensures(__CPROVER_return_value == -1.33) \\\n'
@@ -223,7 +223,10 @@ def build(groups, base, only=None):
          '#define VEC_CAP 64', '#define VEC_LOCAL 1', 'Sc ghost_vec[VEC_CAP + 1]; int ghost_vec_size; int ghost_k;',
          '#define VEC_SIZE(h) ghost_vec_size', '#define VEC_AT(h, i) ghost_vec[i]',
          'vhandle __CPROVER_uninterpreted_vec_from(vhandle, int);', '#define VEC_FROM(a, n) __CPROVER_uninterpreted_vec_from(a, n)',
-         'vhandle ghost_bufdst, ghost_bufsrc;', '#define BUF_COPY(dst, src) (ghost_bufdst = (dst), ghost_bufsrc = (src))',
+         'vhandle ghost_bufdst, ghost_bufsrc; int ghost_bufn;', 'int __CPROVER_uninterpreted_strlen(vhandle);', '#define STRLEN(s) __CPROVER_uninterpreted_strlen(s)',
+         '/* strcpy copies strlen+1 bytes (terminator included); strncpy copies exactly n bytes */',
+         '#define BUF_COPY(dst, src) (ghost_bufdst = (dst), ghost_bufsrc = (src), ghost_bufn = STRLEN(src) + 1)',
+         '#define BUF_COPYN(dst, src, n) (ghost_bufdst = (dst), ghost_bufsrc = (src), ghost_bufn = (n))',
          '#define LOOP_c__masa_get_array_1 __CPROVER_assigns(i, __CPROVER_object_whole(array)) \\',
          '  __CPROVER_loop_invariant(0 <= i && i <= ghost_vec_size) \\',
          '  __CPROVER_loop_invariant((0 <= ghost_k && ghost_k < i) ==> SAME(array[ghost_k], ghost_vec[ghost_k])) \\',
